@@ -1940,19 +1940,29 @@ func (s *sim) framesConsumed(r int, rTotal int64) int {
 	return int((rTotal - off0) / frameSize)
 }
 
-// frameOrig: which genuine unit the j-th frame (0 = auth frame) seen by reader r is.
+// frameOrig: which genuine unit the j-th frame (0 = auth frame) seen by reader r is. The reader
+// cuts its byte stream into frames of frameSize behind the first unit; frame j is genuine unit o
+// iff an entry that is a byte-identical copy of unit o (orig == o) and a whole frame long starts
+// exactly at the frame's stream offset. Entries of other lengths (a replayed 35-byte key unit,
+// the part of a frame that got out before a write error) shift what follows, and further such
+// entries can shift it back into alignment: offsets are summed, not guessed.
 func (s *sim) frameOrig(r, j int) int {
 	st := s.st[r]
-	if j+1 >= len(st.layout) {
+	if len(st.layout) == 0 {
 		return -1
 	}
-	// every entry between the first and this one must be a whole frame
-	for i := 1; i <= j+1; i++ {
-		if st.layout[i].n != frameSize {
+	want := st.layout[0].n + j*frameSize
+	off := st.layout[0].n
+	for i := 1; i < len(st.layout) && off <= want; i++ {
+		if off == want {
+			if st.layout[i].n == frameSize {
+				return st.layout[i].orig
+			}
 			return -1
 		}
+		off += st.layout[i].n
 	}
-	return st.layout[j+1].orig
+	return -1
 }
 
 // judgeReads applies the reference model to the completed Read calls of side i.
